@@ -387,17 +387,18 @@ func (x *xexec) doSign(msg []byte) {
 		if idx > 0 {
 			x.res.Nontrivial["C01"] = true
 		}
-		if oc.panicked {
-			if oc.runtimeEr {
-				x.violate("C01", "sign-runtime-panic", fmt.Sprintf("%s,idx=%d", x.cfgSig(), idx), "Sign at a valid index raised "+oc.pval)
-			}
+		if oc.panicked && oc.runtimeEr {
+			x.violate("C01", "sign-runtime-panic", fmt.Sprintf("%s,idx=%d", x.cfgSig(), idx), "Sign at a valid index raised "+oc.pval)
 			x.violate("C02", "valid-sign-refused", fmt.Sprintf("%s,idx=%d", x.cfgSig(), idx), "model emits index but Sign panicked: "+oc.pval)
 			x.dead = true
 			return
 		}
-		if err != nil || sig == nil {
-			x.violate("C02", "valid-sign-refused", fmt.Sprintf("%s,idx=%d", x.cfgSig(), idx), fmt.Sprintf("model emits index but Sign returned err=%v", err))
-			x.dead = true
+		if oc.panicked || err != nil || sig == nil {
+			// an explicit refusal where the automaton emits: a deviation (C02).
+			// The object stays in use, so what the refusal did to it shows in
+			// the other oracles too.
+			x.violate("C02", "valid-sign-refused", fmt.Sprintf("%s,idx=%d,msglen=%s", x.cfgSig(), idx, lenClass(len(msg))), fmt.Sprintf("model emits index %d but Sign refused: panic=%q err=%v", idx, oc.pval, err))
+			x.resyncAfterUnexpectedRefusal(idx)
 			return
 		}
 		x.model = idx + 1
@@ -452,6 +453,42 @@ func (x *xexec) doSign(msg []byte) {
 		x.violate("C02", "exhausted-sign-accepted", x.cfgSig(), d)
 	}
 	x.afterRefused(snapBefore, "sign@exhausted")
+}
+
+func lenClass(n int) string {
+	switch {
+	case n == 0:
+		return "0"
+	case n <= 64:
+		return "1..64"
+	}
+	return ">64"
+}
+
+// resyncAfterUnexpectedRefusal: the implementation refused an operation the
+// model performs. If it left the index alone, the model stays; if it consumed
+// the index anyway (index+1 without a signature), the model follows and the twin
+// is advanced by a valid operation of its own, never by replaying the refused
+// one. Anything else ends the episode.
+func (x *xexec) resyncAfterUnexpectedRefusal(idx uint32) {
+	x.refused = true
+	g := x.live.GetIndex()
+	switch {
+	case g == idx:
+	case g == idx+1 && g <= x.leaves:
+		x.model = g
+		if x.twin != nil && g < x.leaves {
+			saved := x.twinMode
+			if saved == "mirror" {
+				x.twinMode = "unit"
+			}
+			x.twinAdvance(idx, g)
+			x.twinMode = saved
+		}
+	default:
+		x.violate("C02", "refused-op-changed-index", "unexpected-refusal", fmt.Sprintf("GetIndex=%d after a refused operation at %d", g, idx))
+		x.dead = true
+	}
 }
 
 func sigPart(a, b []byte) string {
@@ -556,12 +593,15 @@ func (x *xexec) doJump(j uint32) {
 		if j == x.leaves-1 {
 			x.res.Probes.Add("jump:to-last", 1)
 		}
-		if oc.panicked {
-			if oc.runtimeEr {
-				x.violate("C01", "jump-runtime-panic", fmt.Sprintf("%s,%d->%d", x.cfgSig(), idx, j), "valid forward SetIndex raised "+oc.pval)
-			}
+		if oc.panicked && oc.runtimeEr {
+			x.violate("C01", "jump-runtime-panic", fmt.Sprintf("%s,%d->%d", x.cfgSig(), idx, j), "valid forward SetIndex raised "+oc.pval)
 			x.violate("C02", "valid-jump-refused", fmt.Sprintf("%s,%d->%d", x.cfgSig(), idx, j), "model accepts SetIndex but it panicked: "+oc.pval)
 			x.dead = true
+			return
+		}
+		if oc.panicked {
+			x.violate("C02", "valid-jump-refused", fmt.Sprintf("%s,%d->%d", x.cfgSig(), idx, j), "model accepts SetIndex but it was refused: "+oc.pval)
+			x.resyncAfterUnexpectedRefusal(idx)
 			return
 		}
 		x.model = j
